@@ -51,8 +51,16 @@ _OWN = {
     # selects runs of consecutive values; the inner element depends on how many values one run() of
     # it receives (RunIf documents a run per selected value: Split(bufsize=1))
     "RunIf(nonneg,Reverse)": lambda: lena.flow.RunIf(nonneg, lena.flow.Reverse()),
+    # a selector that raises for odd data; raise_on_error=False documents "an exception means not selected"
+    "Filter(raising)": lambda: lena.flow.Filter(lena.flow.Selector(raises_on_odd, raise_on_error=False)),
     "markB": lambda: markB,
 }
+
+
+def raises_on_odd(value):
+    if cm.data_of(value) % 2:
+        raise ValueError("odd")
+    return True
 
 
 def nonneg(value):
@@ -86,7 +94,7 @@ def kind_of(spec):
 # alphabets
 
 PRE_QUICK = ["inc", "Variable", "Filter(even)", "Filter(nothing)", "Slice(2)", "Slice(1,3)", "Slice(0)",
-             "Slice(1,5,2)", "Slice(1,None)", "RunIf", "RunIf(dup)", "RunIf(drop)", "RunIf(nonneg,Reverse)"]
+             "Slice(1,5,2)", "Slice(1,None)", "RunIf", "RunIf(dup)", "RunIf(drop)", "RunIf(nonneg,Reverse)", "Filter(raising)"]
 PRE_THOROUGH = PRE_QUICK + ["Call(inc)", "Slice(0,None,2)", "Slice(None,4,3)"]
 ACCS = ["Sum", "DSum", "Mean", "Mean(pass_on_empty)", "VarianceMeanCount",
         "VarianceMeanCount(pass_on_empty)", "FillCompute(Count)", "StoreFilled",
@@ -166,11 +174,16 @@ def _fill_until_stop(filled, flow, info):
 _COMPANION_REF = {}
 
 
+def companion_for(kind):
+    """The companion branch computes with the data; for flows with None values one that only stores."""
+    return ["StoreFilled", "markB"] if kind == "none" else COMPANION
+
+
 def companion_reference(kind, m):
     """Canonical result of the companion chain run as a linear Sequence over the flow (kind, m)."""
     key = (kind, m)
     if key not in _COMPANION_REF:
-        seq = lena.core.Sequence(*[build(s) for s in COMPANION])
+        seq = lena.core.Sequence(*[build(s) for s in companion_for(kind)])
         _COMPANION_REF[key] = cm.canon(list(seq.run(iter(cm.make_flow(kind, m)))))
     return _COMPANION_REF[key]
 
@@ -217,7 +230,7 @@ def run_driver(driver, pre, acc, post, kind, m, info=None):
         # companion's own linear run, the rest with the chain's reference
         def thunk():
             branch = tuple(_elements(pre, acc, post))
-            comp = tuple(build(s) for s in COMPANION)
+            comp = tuple(build(s) for s in companion_for(kind))
             seqs = [branch, comp] if name == "split-first" else [comp, branch]
             got = list(lena.core.Split(seqs, bufsize=b).run(iter(flow)))
             mine = [v for v in got if not is_marked(v)]
